@@ -24,7 +24,7 @@ OWN = {
     'm10_estimate_no_restore': ['C10'], 'm11_keep_as_no': ['C10'], 'm12_delete_skips_duplicates_of_loose_only': ['C11'],
     'm14_validate_no_size_check_uncompressed': ['C12'], 'm16_loose_file_not_closed': ['C18'], 'm17_lazyopener_not_closed': ['C18'],
     'm18_backup_packs_before_index': ['C15'], 'm20_loose_published_when_exists_untrusted': ['C09'], 'm21_clean_no_session_refresh': ['C08'],
-    'm23_import_cache_boundary': ['C14'], 'r_D1_revert_fix': ['C06', 'C18'], 'r_D2_revert_fix': ['C02', 'C03', 'C09', 'C12', 'C13'],
+    'm23_import_cache_boundary': ['C14'], 'm24_read_error_as_eof': ['C17'], 'r_D1_revert_fix': ['C06', 'C18'], 'r_D2_revert_fix': ['C02', 'C03', 'C09', 'C12', 'C13'],
     'r_D3_revert_fix': ['C07'], 'r_D4_revert_fix': ['C08'], 'r_D5_revert_fix': ['C15'], 'r_D6_revert_fix': ['C14'],
     'r_D7_revert_fix': ['C07'], 'r_D8_revert_fix': ['C11', 'C02'], 'r_D9_revert_fix': ['C06'],
 }
